@@ -159,7 +159,17 @@ def run_case(case):
                 c.count = 0
                 c.budget = 50 * (P + nr + nz + nv) + 1000
                 try:
-                    got = pg.compute_2d_process_grid([nr, nth, nz, nv], P)
+                    # the sizes as a list, a tuple, a numpy array (int64 / int32), a strided view of one, or numpy scalars in a list
+                    nrep = n_eval % 6
+                    base_ = [nr, nth, nz, nv]
+                    npts_in = (base_, tuple(base_), np.array(base_), np.array(base_, dtype=np.int32), np.array([nr, 0, nth, 0, nz, 0, nv, 0])[::2],
+                               [np.int64(x) for x in base_])[nrep]
+                    P_in = (P, np.int64(P))[(n_eval // 6) % 2]
+                    classes.add("npts-as-%s" % ("list", "tuple", "int64-array", "int32-array", "strided-array", "list-of-numpy-ints")[nrep])
+                    got = pg.compute_2d_process_grid(npts_in, P_in)
+                    if [int(x) for x in npts_in] != base_:
+                        return result(VIOL, cls=sorted(classes), events=events, n_eval=n_eval, key="C20:npts-argument-modified",
+                                      what="compute_2d_process_grid changed the sizes it was handed: %r -> %r" % (base_, list(npts_in)), witness={"npts": base_, "P": P})
                     ok = tuple(int(x) for x in got) in V
                     events["npts_form"] = events.get("npts_form", 0) + 1
                     if not ok:
@@ -293,11 +303,17 @@ def _setup_case(case, pg):
 
         def prog(rank):
             comm = MPI.COMM_WORLD
-            kw = dict(plotThread=True, drawRank=draw) if plot else {}
+            kw = dict(plotThread=(True, 1, np.True_)[case["seed"] % 3], drawRank=draw) if plot else {}
             if restart:
                 grid, c, t = setups.setupFromFile(folder, comm=comm, allocateSaveMemory=True, layout='v_parallel', **kw)
             else:
+                if (case["seed"] // 3) % 2:
+                    # the sizes also handed over directly, as a numpy array the caller keeps using
+                    mine = np.array(npts)
+                    kw["npts"] = mine
                 grid, c, t = setups.setupCylindricalGrid('v_parallel', constantFile=cfile, comm=comm, allocateSaveMemory=True, **kw)
+                if "npts" in kw and [int(x) for x in mine] != list(npts):
+                    raise AssertionError("setupCylindricalGrid changed the npts array it was handed: %r -> %r" % (npts, mine.tolist()))
             lm = grid._layout_manager
             out = {"nprocs": [int(x) for x in lm.nProcs], "empty": grid.getAllData().size == 0, "shapes": {}}
             for lay_ in ('flux_surface', 'poloidal', 'v_parallel'):
